@@ -274,7 +274,9 @@ Result execute(const Plan &p) {
     sc.cur_pert = 0;
     sc.Ascaled = sc.A; for (size_t j = 0; j < sc.Ascaled.val.size(); ++j) sc.Ascaled.val[j] *= 2.0;
     sc.rhs_exact_scaled = sc.rhs_exact; for (long i = 0; i < n; ++i) sc.rhs_exact_scaled[i] *= 2.0;
-    sc.scaled_ok = p.get("relax") != 4 && !p.get("deflated");      // (ILUT is the statement's exception to exact power-of-two scaling; the deflated bundle has no rebuild of its own)
+    // (Ruge-Stuben compares rounding residues with an absolute machine epsilon - ruge_stuben.hpp:222-232 -, so the hierarchy built for 2*A
+    //  can differ from the one built for A: recorded under C02, C02-rs-absolute-eps; no scaled rebuilds with it)
+    sc.scaled_ok = p.get("relax") != 4 && !p.get("deflated") && p.get("coarsening") != 0;      // (ILUT is the statement's exception to exact power-of-two scaling; the deflated bundle has no rebuild of its own)
     sc.input_mode = (int)p.get("input_mode");
     if (sc.input_mode == 1) {
         // the user's own arrays: every row stored with its diagonal entry first (a legal CRS ordering)
